@@ -30,7 +30,8 @@ CHECKS = {
               "(every supported configuration, every header, junk prefixes over the behaviour-relevant alphabet), checks that "
               "the reference parser inverts the serialiser and that the loop finds the first sync pattern, and every element is "
               "replayed through the real encoders/decoders, esds and sample-entry builders; random executions over the full "
-              "24-bit range are validated as traces by AacTrace.tla."),
+              "24-bit range are validated as traces by AacTrace.tla. The frequency a decoded ADTS header states is compared with table 1.18 "
+              "(two known findings)."),
         note=("Trusted: TLC, the Go replayer. ADTS headers with CRC / MPEG-2 id cannot be produced by the encoder and are "
               "judged as MODEL-DRIFT only. Extension frequency 2*sf must fit 24 bits for SetAACDescriptor."),
         technique="TLA+ syntax spec + TLC exhaustive domain enumeration, behaviour replay, TLC trace validation",
@@ -56,7 +57,8 @@ CHECKS = {
               "models the library's cached-column/binary-search algorithms (Impl); TLC enumerates ALL consistent table sets up "
               "to N samples per query family, checks Impl = Prop, and exports the expected answer of every query for every "
               "sample number, interval and time; the tables are materialised by an independent box writer, decoded by the real "
-              "decoders (box, SR, file, lazy, API-built) and every query result is compared."),
+              "decoders (box, SR, file, lazy, API-built) and every query result is compared. The time family is replayed with every duration "
+              "multiplied by 2^30 (decode times beyond 2^32 ticks; GetTimeCode), the meta family also with an sdtp box built through the constructors."),
         note=("Trusted: TLC, Go replayer and its box writer. Table values are small; 32-bit overflow of accumulated times is not "
               "explored. t = total duration without zero-length last sample is not pinned for GetSampleNrAtTime."),
         technique="TLA+ spec + TLC exhaustive enumeration of tables and queries, behaviour replay into real code",
@@ -68,7 +70,9 @@ CHECKS = {
               "and the work-buffer streaming loop of CopySampleData) over token-coded payloads; TLC enumerates every layout "
               "(header form, box order, payload length), every valid (start,size) range, every chunking, sample interval and "
               "work-buffer size, checks Impl => Prop, and each behaviour is replayed on a materialised file decoded in normal, "
-              "lazy and SR mode; range reads on real corpus files are validated as traces by MdatTrace.tla."),
+              "lazy and SR mode; range reads on real corpus files are validated as traces by MdatTrace.tla. Further layouts: a box with a "
+              "64-bit size header in front of the mdat / fragment, and payloads of 2^32 + x bytes decoded lazily from a sparse virtual file "
+              "(size, header form, following box, last payload bytes, re-encoded header)."),
         note=("Trusted: TLC, Go replayer/materialiser. Payloads up to 9 bytes in the exhaustive part; reads from the ReadSeeker are "
               "assumed to fill the buffer (bytes.Reader)."),
         technique="TLA+ spec + TLC exhaustive enumeration, behaviour replay into real code, TLC trace validation on corpus files",
@@ -96,7 +100,9 @@ CHECKS = {
               "shapes (extra emsg/prft/free/uuid/unknown boxes), decoded with an independently built init segment and read back both "
               "by mp4ff (both decoders) and by the harness's independent ISO reader. In the other direction FragmentRead.tla states the "
               "tfhd / trex / trun defaulting rules of ISO 14496-12 8.8.7/8.8.8 and the running decode time; the raw box fields (own walk) and the samples the "
-              "library returns are recorded for every track fragment of the corpus files and of a share of the segments written in the run, and TLC validates each run."),
+              "library returns are recorded for every track fragment of the corpus files and of a share of the segments written in the run, and TLC validates each run. "
+              "Batch calls get their samples in two batches through one reused scratch slice; an interval followed by full samples; an unknown track id must be refused; "
+              "fragments of 1024 / 1025 / 3000 equal samples with and without trun optimisation."),
         note=("Trusted: TLC, Go replayer incl. its ISO reader. Sample field values come from 5 classes (equal/different dur, size, "
               "flags, cto incl. negative, zero size); at most 7 adds per fragment, 2 tracks, 2 fragments."),
         technique="TLA+ history spec + TLC exhaustive enumeration, behaviour replay into real code with independent read-back, TLC trace validation of fragment reads",
@@ -153,7 +159,8 @@ CHECKS = {
               "enumerates the fragmented file layouts; for every pool object Encode vs EncodeSW, for every top-level box and file "
               "(corpus and every FileAsm layout) DecodeBox/DecodeFile vs DecodeBoxSR/DecodeFileSR on canonical bytes with structure, "
               "size, re-encoding, grouping and start positions compared, and the key sets of the dispatch tables (hook); TLC validates "
-              "the recorded outcomes."),
+              "the recorded outcomes. Every BoxLayouts.tla instance is an input too; lazily sized mdat boxes and fragments around the 32-bit size "
+              "limit are encoded by each encoder on its own fresh object."),
         note=("Trusted: TLC, Go driver. Structure equivalence = equal Info dump (all:1), equal Size, equal re-encoded bytes, equal "
               "file projection; default decode options only (as the property states)."),
         technique="TLA+ spec: TLC enumerates file layouts, both implementations observed on real objects, TLC trace validation",
@@ -168,7 +175,8 @@ CHECKS = {
               "(samples, sample entry restored, sinf gone, non-protection boxes kept byte-identically, offsets) are validated by "
               "CencTrace.tla. The five encrypted files of the repository that other tools produced (cenc and cbcs multi-traf "
               "files with a clear audio track, cbcs audio, PIFF audio and video with uuid senc) are decrypted by the library and, "
-              "independently, by the harness (own senc walker + raw AES block function) and compared sample by sample."),
+              "independently, by the harness (own senc walker + raw AES block function) and compared sample by sample. Media segments "
+              "with their own sidx must keep their top-level box sequence (known finding: DecryptSegment drops the sidx)."),
         note=("Trusted: TLC, Go driver, its walker/ISO reader. Keys are fixed; IVs from 7 classes incl. wrap."),
         technique="TLA+ spec: TLC enumerates sample layouts, replay through real encrypt/decrypt, TLC trace validation of outcomes",
         design_ref="DESIGN.md section 5 C06/C07",
@@ -180,7 +188,9 @@ CHECKS = {
               "senc entries; IVs advance by the blocks used, 128-bit carry) and an Impl model of the library's Bento4-compatible rule; "
               "TLC checks Impl => Prop for every NAL size mix and exports the samples; the real EncryptFragment output is parsed by the "
               "harness's own walker and every observed sample/fragment is validated by CencTrace.tla; protected bytes are compared with "
-              "an independent CTR / CBC-pattern schedule built on the raw AES block function only, all other bytes with the clear input."),
+              "an independent CTR / CBC-pattern schedule built on the raw AES block function only, all other bytes with the clear input. "
+              "A share of the jobs is encoded with trun optimisation (saio must still point at the senc entries); samples of 39 / 40 / 45 equal "
+              "protected NAL units probe the 8-bit limit of saiz (refusal is accepted from 40 on, a wrapped size is not)."),
         note=("Trusted: TLC, Go driver/walker, crypto/aes block function. cbcs video: slice-header length from avc.ParseSliceHeader "
               "(judged by C15), corpus content only."),
         technique="TLA+ spec + TLC exhaustive enumeration, replay through real encryptor, TLC trace validation, independent cipher schedule",
@@ -261,7 +271,8 @@ CHECKS = {
               "deterministically against the real library with digests of the shared inputs, the decoder registries (hook) and every "
               "live object after each call, and TLC validates Q1 (nothing shared is written), Q2 (each result equals the goroutine's "
               "solo run, with per-goroutine reused key buffers, and key material passed as slices of one shared buffer) and Q3 (no other "
-              "goroutine's object changes). The same programs run on "
+              "goroutine's object changes); the solo reference is computed in a process of its own per program, so package-level "
+              "state left behind by earlier calls shows up. The same programs run on "
               "real goroutines under the Go race detector with results compared against solo runs."),
         note=("Call-level interleavings decide hidden state and aliasing; memory-access-level data races are decided by the race "
               "detector on the runs performed (writes inside assembly cipher routines are not instrumented). Level: exploration."),
@@ -276,7 +287,9 @@ CHECKS = {
               "(sync sets, ctts, chunkings, a second audio track, audio-only) x requested durations on the sample-start grid and exports "
               "them; the BUILT mp4ff-crop binary runs on each materialised file (stco / co64 / mdat-first / edit-list layouts) and its "
               "output is expanded by the harness's own table reader and compared sample by sample (bytes, durations, composition "
-              "offsets, sync flags, offsets inside mdat, mdat size, header durations)."),
+              "offsets, sync flags, offsets inside mdat, mdat size, header durations). Start times are compared with the end time exactly across "
+              "timescales (a 441 Hz track makes the converted end time fractional); an stss box without entries must make the tool refuse, not panic; the "
+              "table reader insists on a well-formed stsc."),
         note=("Judged only when the tool exits 0 and the spec defines an end time inside every track; other outcomes are counted as "
               "MODEL-DRIFT diagnostics. sdtp is not generated."),
         technique="TLA+ spec + TLC exhaustive enumeration, replay through the built CLI binary with independent read-back",
